@@ -1,6 +1,7 @@
 package main
 
 import (
+	"context"
 	"fmt"
 	"strings"
 	"unicode/utf8"
@@ -63,6 +64,27 @@ func mutations(name string, seed []byte, all bool) []c08Frame {
 	return out
 }
 
+// craftedFrames: protobuf-style field headers a decoder has not been written for (field numbers 1..8,
+// every wire type) followed by lengths / values at the edges of 64 bits, with and without a valid frame
+// behind them - what a fuzzer of the wire format sends, as opposed to damaged valid frames.
+func craftedFrames(valid []byte) []c08Frame {
+	var out []c08Frame
+	vals := []uint64{0, 1, 127, 1 << 31, 1<<32 - 1, 1<<63 - 1, 1 << 63, 1<<64 - 11, 1<<64 - 1}
+	for field := 1; field <= 8; field++ {
+		for wt := 0; wt < 8; wt++ {
+			for _, v := range vals {
+				b := []byte{byte(field<<3 | wt)}
+				b = uvarint(b, v)
+				out = append(out, c08Frame{fmt.Sprintf("crafted/f%d/w%d/%x", field, wt, v), b})
+				if field%3 == 1 && (wt == 2 || wt == 0) {
+					out = append(out, c08Frame{fmt.Sprintf("crafted+valid/f%d/w%d/%x", field, wt, v), append(append([]byte(nil), b...), valid...)})
+				}
+			}
+		}
+	}
+	return out
+}
+
 func c08RequestFrames(encName string, all bool) []c08Frame {
 	enc := wireEncoder(encName)
 	seeds := []c08Frame{
@@ -89,6 +111,7 @@ func c08RequestFrames(encName string, all bool) []c08Frame {
 			}
 		}
 	}
+	out = append(out, craftedFrames(seeds[0].data)...)
 	return out
 }
 
@@ -106,6 +129,7 @@ func c08ResponseFrames(encName string, all bool) []c08Frame {
 	for b := 0; b < 256; b++ {
 		out = append(out, c08Frame{fmt.Sprintf("onebyte/%02x", b), []byte{byte(b)}})
 	}
+	out = append(out, craftedFrames(seeds[0].data)...)
 	return out
 }
 
@@ -554,4 +578,84 @@ func c08FailedWrites(x *X) {
 
 func init() {
 	register(&Scenario{Prop: "C08", Name: "c08/failed-response-writes", Quick: []Bound{{0, 0}, {1, 0}}, Thorough: []Bound{{2, 0}}, Body: c08FailedWrites, MaxSteps: 100000, BudgetQ: 15})
+}
+
+// a service whose exported methods have signatures the library's calling conventions do not cover
+// (a value instead of a pointer, a context and nothing else, no parameters, three results, a variadic):
+// registering such a type is the application's business; a peer that names one of these methods -
+// as a call or as a stream open - gets an error or an answer, never a crashed server.
+type Odd struct{}
+
+func (o *Odd) Val(a int, res *int) error                       { *res = a; return nil }
+func (o *Odd) OnlyCtx(ctx context.Context) error               { return nil }
+func (o *Odd) NoArgs() error                                   { return nil }
+func (o *Odd) CtxArgs(ctx context.Context, a *[]byte) error    { return nil }
+func (o *Odd) CtxVal(ctx context.Context, a int, r *int) error { return nil }
+func (o *Odd) ThreeOut(a *int) (int, int, error)               { return 0, 0, nil }
+func (o *Odd) Variadic(a *[]byte, more ...*[]byte) error       { return nil }
+func (o *Odd) NoErr(a *[]byte, res *[]byte)                    {}
+func (o *Odd) Iface(a interface{}, res *[]byte) error          { return nil }
+func (o *Odd) Chan(a chan int, res *[]byte) error              { return nil }
+func (o *Odd) Good(a *[]byte, res *[]byte) error               { *res = *a; return nil }
+
+var oddMethods = []string{"Val", "OnlyCtx", "CtxArgs", "CtxVal", "NoArgs", "ThreeOut", "Variadic", "NoErr", "Iface", "Chan"}
+
+func c08OddSignatures(x *X) {
+	mi := x.Choose(len(oddMethods))
+	kind := x.Choose(2)
+	cname := []string{"bytes", "json"}[x.Choose(2)]
+	so := srvOpts{bufSize: 64}
+	if cname == "json" {
+		so.codec = func() rpc.Codec { return rpc.NewJSONCodec() }
+	}
+	w := newWorld()
+	srv := newServer(w, so)
+	regPanic := ""
+	func() {
+		defer func() {
+			if r := recover(); r != nil {
+				regPanic = fmt.Sprint(r)
+			}
+		}()
+		srv.Register(&Odd{})
+	}()
+	if regPanic != "" {
+		x.Outcome("Register panicked: %s", regPanic) // (the application's own call: not something a peer does)
+		return
+	}
+	cl, sv := NewPipe()
+	serveCodec(srv, sv, so)
+	conn := newConn(cl, "", 64, nil) // BYTES on the client: the body is the text below
+	ret := false
+	var err error
+	vs.GoNamed("caller", func() {
+		if kind == 0 {
+			args := []byte(`5`)
+			var reply []byte
+			err = conn.Call("Odd."+oddMethods[mi], &args, &reply)
+		} else {
+			_, err = conn.NewStream("Odd." + oddMethods[mi])
+		}
+		ret = true
+	})
+	vs.Quiesce()
+	after := []byte(`"eHl6"`) // (the JSON form of a byte slice)
+	if cname == "bytes" {
+		after = []byte("xyz")
+	}
+	var areply []byte
+	aret := false
+	var aerr error
+	vs.GoNamed("caller2", func() { aerr = conn.Call("Odd.Good", &after, &areply); aret = true })
+	vs.Quiesce()
+	if !aret || aerr != nil {
+		x.Fail("C08/connection-wedged/odd-signatures", "after a %s naming the registered method Odd.%s (body codec %s) a well-formed call on the same connection: returned=%v err=%v", []string{"call", "stream open"}[kind], oddMethods[mi], cname, aret, aerr)
+	}
+	x.Outcome("%s kind=%d codec=%s ret=%v err=%v", oddMethods[mi], kind, cname, ret, err)
+	conn.Close()
+	vs.Quiesce()
+}
+
+func init() {
+	register(&Scenario{Prop: "C08", Name: "c08/odd-method-signatures", Quick: []Bound{{0, 0}}, Thorough: []Bound{{1, 0}}, Body: c08OddSignatures, BudgetQ: 10, MinHB: 1})
 }
